@@ -310,6 +310,15 @@ type fieldAccess struct {
 	write bool
 	held  lockSet
 	fresh bool // the struct was allocated in this function (constructor)
+	at    ssa.Instruction // where the shared memory is touched when that is not the field access itself (element of a loaded slice/map)
+}
+
+// Pos: where the access happens.
+func (a fieldAccess) Pos() token.Pos {
+	if a.at != nil {
+		return a.at.Pos()
+	}
+	return a.instr.Pos()
 }
 
 // accesses lists every access to fields of the named struct types.
@@ -318,6 +327,29 @@ func (w *lockWorld) accesses(want func(owner *types.Named, f *types.Var) bool) [
 	for _, f := range w.funcs {
 		li := w.infos[f]
 		li.Visit(func(i ssa.Instruction, held lockSet) {
+			// element access through a loaded slice/map value of a field:
+			// `s := x.f` under the lock and `s[i]` / `range s` after the
+			// unlock still read the shared backing store
+			var viaLoad ssa.Value
+			switch x := i.(type) {
+			case *ssa.IndexAddr:
+				viaLoad = x.X
+			case *ssa.Lookup:
+				viaLoad = x.X
+			case *ssa.Range:
+				viaLoad = x.X
+			}
+			if u, ok := viaLoad.(*ssa.UnOp); ok && u.Op == token.MUL {
+				if fa2, ok := u.X.(*ssa.FieldAddr); ok {
+					if fld := fieldOfAddr(fa2); fld != nil {
+						if owner := ownerOf(fa2.X.Type()); owner != nil && want(owner, fld) {
+							_, isAlloc := fa2.X.(*ssa.Alloc)
+							out = append(out, fieldAccess{fn: f, instr: fa2, at: i, field: fld, write: false, held: held.clone(), fresh: isAlloc})
+						}
+					}
+				}
+				return
+			}
 			fa, ok := i.(*ssa.FieldAddr)
 			if !ok {
 				return
